@@ -53,6 +53,8 @@ Cell(k) == [t |-> "cell", id |-> k]
 Unset == [t |-> "unset"]
 IntVals == {IntV(1), IntV(2)}
 BadV == IntV(9)     \* outside the declared bounds of a plain parameter
+NoneVal == [t |-> "none"]    \* plain parameters allow None
+GenVal == [t |-> "gen"]      \* a callable assigned to a (Dynamic) plain parameter of an instance: reads as 1
 BadEq == [t |-> "badeq"]   \* a value of the wrong type that compares equal to the current value (float(v) for an Integer)
 IsBad(v) == v = BadV \/ v = BadEq
 
@@ -70,12 +72,13 @@ NewParam(kind, dflt, owner) ==
 
 \* ---- projection: everything C12 / C13 / C14 talk about ---------------------------------------
 ValObs(v) == IF v.t = "cell" THEN [t |-> "cell", id |-> v.id, c |-> cells[v.id]] ELSE v
+Show(v, ce) == IF v.t = "cell" THEN [t |-> "cell", id |-> v.id, c |-> ce[v.id]] ELSE IF v.t = "gen" THEN IntV(1) ELSE v
 ObsOf(P2, cd2, ce2, I2) ==   \* evaluated on the primed state by the callers
   [editopen |-> (\E j \in 1..Len(I2) : I2[j].edit > 0),
    classes |-> [c \in CSet |-> [n \in {m \in AllNames : DeclIn(cd2, c, m)} |->
        LET h == HolderIn(cd2, c, n)
            p == P2[cd2[h][n]]
-       IN [val |-> (IF p.default.t = "cell" THEN [t |-> "cell", id |-> p.default.id, c |-> ce2[p.default.id]] ELSE p.default),
+       IN [val |-> Show(p.default, ce2),
            holder |-> h, bounds |-> p.bounds, constant |-> p.constant, objs |-> IF p.ol = 0 THEN 0 ELSE ce2[p.ol]]]],
    insts |-> [i \in 1..Len(I2) |-> [n \in {m \in AllNames : DeclIn(cd2, I2[i].cls, m)} |->
        LET c == I2[i].cls
@@ -83,7 +86,7 @@ ObsOf(P2, cd2, ce2, I2) ==   \* evaluated on the primed state by the callers
            cp == P2[cd2[h][n]]
            ip == IF I2[i].ip[n] # 0 THEN P2[I2[i].ip[n]] ELSE cp
            v == IF I2[i].vals[n] # Unset THEN I2[i].vals[n] ELSE cp.default
-       IN [val |-> (IF v.t = "cell" THEN [t |-> "cell", id |-> v.id, c |-> ce2[v.id]] ELSE v),
+       IN [val |-> Show(v, ce2),
            own |-> I2[i].ip[n] # 0, bounds |-> ip.bounds, constant |-> ip.constant, objs |-> IF ip.ol = 0 THEN 0 ELSE ce2[ip.ol]]]]]
 
 Init == /\ P = [i \in 1..Len(NameSeq) |->
@@ -134,7 +137,8 @@ InstParam(i, n) ==
 
 \* class-level assignment `c.n = v` : copy-on-write of an inherited Parameter, then set its default
 ClassSet(c, n, v) ==
-  /\ "classset" \in Acts /\ Step /\ Declared(c, n)
+  /\ "classset" \in Acts /\ Step /\ Declared(c, n) /\ v # GenVal
+  /\ (v = BadEq => ClassVal(c, n).t = "int")
   /\ (n \in Names => Kind[n] \notin SelKinds)
   /\ LET src == Lookup(c, n) IN
      IF IsBad(v)
@@ -160,7 +164,8 @@ ClassSet(c, n, v) ==
                     \cup (IF EditOpen /\ ~own /\ P[src].constant THEN {"KF_ClassFlagClearedDuringEdit"} ELSE {}))
 
 \* `c.param.add_parameter(n, Parameter(default=v))`
-AddParameter(c, n, v) ==
+\* route "add": c.param.add_parameter(n, Parameter(default=v)); route "assign": setattr(c, n, Parameter(default=v))
+AddParameter(c, n, v, route) ==
   /\ "addparam" \in Acts /\ Step
   /\ (n \in Names => Kind[n] = "plain")        \* overriding a declaration: plain parameters only
   \* attributes the new Parameter leaves unset are inherited from the Parameter of the same name that
@@ -171,7 +176,7 @@ AddParameter(c, n, v) ==
      IN P' = Append(P, [NewParam("plain", v, c) EXCEPT !.bounds = inh])
   /\ cdict' = [cdict EXCEPT ![c][n] = Len(P) + 1]
   /\ UNCHANGED <<cells, I>>
-  /\ Rec("addparam", [c |-> c, n |-> n, v |-> v], "ok", P', cdict', cells, I,
+  /\ Rec("addparam", [c |-> c, n |-> n, v |-> v, route |-> route], "ok", P', cdict', cells, I,
          (IF StaleCopyRisk(c, n) THEN {"KF_StaleInstanceParam"} ELSE {}))
 
 \* constructor: instantiate=True values are deep-copied, constant ones are pinned (same object)
@@ -269,6 +274,7 @@ ClassMeta(c, n, b) ==
 InstSet(i, n, v, route) ==
   /\ "instset" \in Acts /\ Step /\ i \in 1..Len(I) /\ Declared(I[i].cls, n)
   /\ (n \in Names => Kind[n] \notin SelKinds)
+  /\ (v = BadEq => InstVal(i, n).t = "int")
   /\ LET p == P[IParam(i, n)]
          isnew == v.t = "newcell"
          cur == InstVal(i, n)
@@ -285,10 +291,11 @@ InstSet(i, n, v, route) ==
                 /\ I' = [I EXCEPT ![i].ip[n] = IF mk THEN Len(P) + 1 ELSE @]
                 /\ UNCHANGED <<cdict, cells>>
                 /\ Rec("instset", [i |-> i, n |-> n, v |-> v, route |-> route],
-                       IF IsBad(v) /\ ~frozen THEN "ValueError" ELSE "TypeError", P', cdict, cells, I', {})
+                       IF IsBad(v) THEN "ValueError" ELSE "TypeError", P', cdict, cells, I', {})     \* (validation comes first)
            ELSE LET mk == I[i].ip[n] = 0 /\ P[Lookup(I[i].cls, n)].perinst IN
                 /\ P' = IF mk THEN Append(P, P[Lookup(I[i].cls, n)]) ELSE P
-                /\ I' = [I EXCEPT ![i].vals[n] = val, ![i].ip[n] = IF mk THEN Len(P) + 1 ELSE @]
+                \* (re-assigning the identical object to a constant parameter stores nothing)
+                /\ I' = [I EXCEPT ![i].vals[n] = IF frozen THEN @ ELSE val, ![i].ip[n] = IF mk THEN Len(P) + 1 ELSE @]
                 /\ cells' = IF isnew THEN Append(cells, 0) ELSE cells
                 /\ UNCHANGED cdict
                 /\ Rec("instset", [i |-> i, n |-> n, v |-> v, route |-> route], "ok", P', cdict, cells', I', {})
@@ -307,6 +314,21 @@ InstMeta(i, n, b) ==
         /\ Rec("instmeta", [i |-> i, n |-> n, b |-> b], "ok", P', cdict, cells', I',
                IF EditOpen /\ I[i].edit = 0 /\ ~has /\ P[Lookup(I[i].cls, n)].constant
                THEN {"KF_ClassFlagClearedDuringEdit"} ELSE {})
+
+\* `i.param[n].constant = b` : the constant flag of the instance's own Parameter (the class's is untouched)
+InstConst(i, n, b) ==
+  /\ "instconst" \in Acts /\ Step /\ i \in 1..Len(I) /\ Declared(I[i].cls, n) /\ ~EditOpen
+  /\ P[Lookup(I[i].cls, n)].perinst /\ ~P[Lookup(I[i].cls, n)].readonly
+  \* (for an instance that never set n, what "the value" of a constant is after a later class-level set is not said)
+  /\ I[i].vals[n] # Unset
+  /\ LET has == I[i].ip[n] # 0
+         pid == IF has THEN I[i].ip[n] ELSE Len(P) + 1
+         P1 == IF has THEN P ELSE Append(P, InstCopy(Lookup(I[i].cls, n), cells)[1])
+     IN /\ P' = [P1 EXCEPT ![pid].constant = b]
+        /\ I' = [I EXCEPT ![i].ip[n] = pid]
+        /\ cells' = IF has THEN cells ELSE InstCopy(Lookup(I[i].cls, n), cells)[2]
+        /\ UNCHANGED <<cdict>>
+        /\ Rec("instconst", [i |-> i, n |-> n, b |-> b], "ok", P', cdict, cells', I', {})
 
 \* in-place mutation of the object currently held by instance i (or class c) under name n
 MutateInst(i, n) ==
@@ -332,8 +354,9 @@ ExitEdit(i, raising) == /\ "edit" \in Acts /\ i \in 1..Len(I) /\ I[i].edit > 0
 
 NewCell == [t |-> "newcell"]
 SkipRef == [t |-> "skipref"]
-ValsFor(n) == IF n \in Names /\ Kind[n] \in {"mut_inst", "mut_shared", "const"} THEN {NewCell}
-              ELSE IF n \in Names /\ Kind[n] \in {"plain", "noperinst"} THEN IntVals \cup {BadV, BadEq} ELSE IntVals
+ValsFor(n) == IF n \in Names /\ Kind[n] = "plain" /\ "gen" \in Acts THEN IntVals \cup {BadV, BadEq, NoneVal, GenVal}
+              ELSE IF n \in Names /\ Kind[n] \in {"mut_inst", "mut_shared", "const"} THEN {NewCell}
+              ELSE IF n \in Names /\ Kind[n] \in {"plain", "noperinst"} THEN IntVals \cup {BadV, BadEq, NoneVal} ELSE IntVals
 Kws(c) == {<<>>} \cup UNION {{[x \in {n} |-> v] : v \in (ValsFor(n) \ {BadV, BadEq}) \cup (IF Kind[n] = "mut_inst" /\ "skipref" \in Acts THEN {SkipRef} ELSE {})} :
                                 n \in {m \in Names : Declared(c, m) /\ Kind[m] # "readonly"}}
 
@@ -341,7 +364,7 @@ Next ==
   \/ \E c \in CSet : ReadNS(c)
   \/ \E i \in 1..MaxInst, n \in AllNames : InstParam(i, n)
   \/ \E c \in CSet, n \in AllNames : \E v \in ValsFor(n) : ClassSet(c, n, v)
-  \/ \E c \in CSet, n \in {Extra} \cup {m \in Names : Kind[m] = "plain"} : \E v \in IntVals : AddParameter(c, n, v)
+  \/ \E c \in CSet, n \in {Extra} \cup {m \in Names : Kind[m] = "plain"} : \E v \in IntVals, r \in {"add", "assign"} : AddParameter(c, n, v, r)
   \/ \E c \in CSet : \E kw \in Kws(c) : New(c, kw)
   \/ \E i \in 1..MaxInst, n \in AllNames : \E v \in ValsFor(n) \cup {[t |-> "same"]} :
         \E r \in {"attr", "update"} : InstSet(i, n, v, r)
@@ -351,6 +374,7 @@ Next ==
   \/ \E i \in 1..MaxInst, n \in Names : InstObjsAppend(i, n, 3)
   \/ \E c \in CSet, n \in Names : ClassObjsAppend(c, n, 3)
   \/ \E c \in CSet, n \in AllNames : \E b \in {1, 2} : ClassMeta(c, n, b)
+  \/ \E i \in 1..MaxInst, n \in AllNames, b \in BOOLEAN : InstConst(i, n, b)
   \/ \E i \in 1..MaxInst, n \in AllNames : MutateInst(i, n)
   \/ \E c \in CSet, n \in AllNames : MutateClass(c, n)
   \/ \E i \in 1..MaxInst : EnterEdit(i) \/ ExitEdit(i, FALSE) \/ ExitEdit(i, TRUE)
@@ -383,10 +407,11 @@ InstantiatePrivate ==
      (Kind[n] = "mut_inst" /\ Declared(I[i].cls, n) /\ InstVal(i, n).t = "cell") =>
         /\ InstVal(i, n) # ClassVal(I[i].cls, n)
         /\ \A j \in 1..Len(I) : (j # i /\ Declared(I[j].cls, n)) => InstVal(j, n) # InstVal(i, n)
-\* C14: the object held by a constant parameter of an instance changes only under an open edit block
+\* C14: the object held by an instance under a parameter declared constant changes only under an open edit block
+\* (unless the instance's own Parameter copy was made non-constant)
 ConstStable ==
   [][\A i \in 1..Len(I), n \in Names :
-        (Kind[n] \in {"const", "constnone", "readonly"} /\ i <= Len(I') /\ I[i].edit = 0 /\ I'[i].edit = 0) => I'[i].vals[n] = I[i].vals[n]]_vars
+        (Kind[n] \in {"const", "constnone", "readonly"} /\ P[IParam(i, n)].constant /\ i <= Len(I') /\ I[i].edit = 0 /\ I'[i].edit = 0) => I'[i].vals[n] = I[i].vals[n]]_vars
 ReadonlyNever ==
   [][\A c \in CSet, n \in Names : Kind[n] = "readonly" => ClassVal(c, n)' = ClassVal(c, n)]_vars
 TypeOK == nops \in 0..MaxOps /\ Len(I) <= MaxInst
